@@ -335,6 +335,33 @@ func init() {
 			st.assume(mk(sortBool, "(forall ((i!m Int)) (! (=> (and (<= 0 i!m) (< i!m %s)) (= (select %s i!m) %s)) :pattern ((select %s i!m))))", slLen(src).S, slArr(r).S, body.S, slArr(r).S))
 			return []Term{r}
 		}},
+		// maps.Copy(dst, src): dst gets every entry of src (src wins)
+		"maps.Copy": {pure: false, fn: func(fv *FuncVerifier, call *ast.CallExpr, args []Term, st *State) []Term {
+			dst, src := args[0], args[1]
+			if dst.Sort == nil || src.Sort == nil || dst.Sort.Kind != KRef || dst.Sort.Key == nil {
+				reject("maps.Copy on unmodelled maps")
+			}
+			sdom, sval := fv.mapRead(src, st)
+			ddom, dval := fv.mapRead(dst, st)
+			cs := fv.u.mapContentSort(dst.Sort)
+			// copying from a nil/empty map into a nil map is fine; a non-empty source needs a non-nil destination
+			fv.oblige(st, "safe:nilmap", fmt.Sprint(fv.counter("nilmap")), or(not(eq(dst, Term{"0", sortInt})), mk(sortBool, "(forall ((k!c %s)) (not (select %s k!c)))", dst.Sort.Key.Name, sdom.S)), call.Pos(), "maps.Copy into a non-nil map")
+			ndom := fv.u.freshConst("cpdom", cs.Fields[0].Sort)
+			nval := fv.u.freshConst("cpval", cs.Fields[1].Sort)
+			ncard := fv.u.freshConst("cpcard", sortInt)
+			st.assume(mk(sortBool, "(forall ((k!c %s)) (! (= (select %s k!c) (or (select %s k!c) (select %s k!c))) :pattern ((select %s k!c))))", dst.Sort.Key.Name, ndom.S, ddom.S, sdom.S, ndom.S))
+			st.assume(mk(sortBool, "(forall ((k!c %s)) (! (= (select %s k!c) (ite (select %s k!c) (select %s k!c) (select %s k!c))) :pattern ((select %s k!c))))", dst.Sort.Key.Name, nval.S, sdom.S, sval.S, dval.S, nval.S))
+			st.assume(mk(sortBool, "(>= %s 0)", ncard.S))
+			base := len(st.pc)
+			a := st.clone()
+			a.assume(not(eq(dst, Term{"0", sortInt})))
+			h := fv.heap(a, dst.Sort)
+			fv.setHeap(a, dst.Sort, store(h, dst, mk(cs, "(mk_%s %s %s %s)", cs.Name, ndom.S, nval.S, ncard.S)))
+			b := st.clone()
+			b.assume(eq(dst, Term{"0", sortInt}))
+			*st = *fv.mergeStates([]*State{a, b}, base)
+			return nil
+		}},
 		"slices.Insert": {pure: false, fn: func(fv *FuncVerifier, call *ast.CallExpr, args []Term, st *State) []Term {
 			if len(args) != 3 || call.Ellipsis.IsValid() {
 				reject("slices.Insert with other than one inserted value")
